@@ -504,7 +504,10 @@ func (t *Type) GetAttrOrNil(name string) Object {
 //
 // May raise exceptions if calling the method failed
 func (t *Type) CallMethod(name string, args Tuple, kwargs StringDict) (Object, bool, error) {
-	fn := t.GetAttrOrNil(name) // FIXME this should use py.GetAttrOrNil?
+	// Special methods are looked up on the type of the object, along
+	// the type's method resolution order - never in the object's own
+	// dictionary (for a class object that is the metatype, not the class)
+	fn := t.Type().NativeGetAttrOrNil(name)
 	if fn == nil {
 		return nil, false, nil
 	}
